@@ -133,6 +133,16 @@ def corpus():
         out.append({"tables": [T0, T1, ["aliased", "w1", None], ["aliased", "w2", None]], "subs": [], "kind": "corpus",
                     "obj": ["q", "Query", steps, {}], "others": [],
                     "hist": _h(["str"], ["sql", {"quote_char": "`", "query_alias_quote_char": "'"}], ["hash"], ["str"], ["eq", "twin"])})
+    # one term OBJECT in two places (seeded/C09-16): an aliased criterion as select column and as the only FILTER criterion
+    # (Criterion.all of a one-element list IS that object), in WHERE and select list, as window PARTITION BY and GROUP BY
+    for nfilters in (1, 2):
+        filt = [["x", 0]] + ([["cmp", "<", ["f", "b", ["t", 0]], 100]] if nfilters == 2 else [])
+        out.append({"tables": [T0], "subs": [], "kind": "corpus",
+                    "terms": [["as", ["isin", ["f", "a", ["t", 0]], ["pylist", [1, 2]]], "is_small"], ["fn", "LOWER", [["f", "b", ["t", 0]]], "lw"]],
+                    "obj": ["q", "Query", [["from_", [["t", 0]]], ["select", [["x", 0], ["agg", "Count", ["*"], {"filter": filt, "alias": "n"}], ["x", 1],
+                                                                              ["an", "Sum", [["f", "c", ["t", 0]]], {"over": [["x", 1]], "filter": [["x", 0]]}]]],
+                                          ["where", [["x", 0]]], ["groupby", [["x", 1]]], ["orderby", [["x", 0]]]], {}],
+                    "others": [], "hist": _h(["str"], ["str"], [["sub", 3], ["str"]], ["hash"], ["sql", {"with_alias": True, "quote_char": "`"}], ["str"])})
     # set operation, DDL
     out.append({"tables": [T0, T1], "subs": [], "kind": "corpus",
                 "obj": ["setop", ["q", "Query", [["from_", [["t", 0]]], ["select", ["a", "b"]]], {}],
